@@ -172,6 +172,19 @@ def run_script(exe, cases, env=None, timeout=600, tag="drv", args=()):
 
 
 # ---------------------------------------------------------------------------------------------
+AMBIENT_ERRNO = {1: ("ENOMEM", 12), 3: ("ERANGE", 34), 5: ("EINVAL", 22), 7: ("EINTR", 4)}
+
+
+def ambient_env(sh, shard):
+    """half of the shards run their driver with errno preset (before every command) to a value a previous, unrelated call could have left behind:
+    what a parser or serializer returns must not depend on it.  Recorded on the shard so that replay files carry it."""
+    if shard % 8 in AMBIENT_ERRNO:
+        name, v = AMBIENT_ERRNO[shard % 8]
+        sh.env = dict(sh.env, VF_AMBIENT_ERRNO=str(v))
+        sh.count("shards_run_with_stale_errno_" + name)
+    return sh.env
+
+
 class Shard:
     """What a worker returns."""
 
@@ -182,6 +195,7 @@ class Shard:
         self.samples = []
         self.violations = []  # dicts: key, what, replay(dict)
         self.notes = []
+        self.env = {}         # environment the shard's driver processes run under; copied into every replay file
 
     def count(self, name, k=1):
         self.counters[name] = self.counters.get(name, 0) + k
@@ -197,6 +211,8 @@ class Shard:
         # keep at most a few witnesses per key per shard
         n = sum(1 for v in self.violations if v["key"] == key)
         if n < 2:
+            if self.env and isinstance(replay, dict):
+                replay = dict(replay, env=dict(self.env, **replay.get("env", {})))
             self.violations.append({"key": key, "what": what, "replay": replay})
         self.count("violations_seen")
 
